@@ -20,9 +20,10 @@ and compares
   * textDocument/definition on every import use site (module qualifier, member after the qualifier, unqualified import item,
     unqualified use, imported type in an annotation) with Resolve: the target URI and, for members, that the returned range
     overlaps the name of the expected definition.  Asked twice: right after the file has been opened (only a prefix of the
-    open order is known to the server) and again when everything is open;
+    open order is known to the server) and again when everything is open (once for the file that is opened last);
   * textDocument/prepareRename on uses and on definitions with External: error (or null) for symbols of build/packages
-    packages, a range for local ones; textDocument/rename of local functions must not edit files of build/packages
+    packages, a range for local ones; textDocument/rename of local functions must not edit files of build/packages,
+    textDocument/rename of a function of a build/packages package must be refused
     (what rename accepts and edits is C08's subject; it is observed here on every generated layout and reported as a C17
     violation, "packages under build/packages are ... not editable");
   * definition / hover / glas/syntaxTree on the free-standing file: answered, no error response, server alive.
@@ -287,7 +288,7 @@ class CaseRun:
         self.viol = []          # (features, bad)
         self.evals = 0
         self.stats = {"nonnormal_uri": 0, "error_at_unresolved": 0, "resolved": 0, "unresolved": 0, "cross_pkg": 0,
-                      "gate_external": 0, "gate_local": 0, "rename": 0, "free": 0, "skipped_early": 0}
+                      "gate_external": 0, "gate_local": 0, "rename": 0, "rename_external": 0, "free": 0, "skipped_early": 0}
         self.sess = None
         self.root_known = False
 
@@ -392,11 +393,11 @@ class CaseRun:
                 self.bad(dict(feats, what="local symbol refused for rename"),
                          got=(r.get("error") or {}).get("message", "null")[:200], **where)
 
-    def probe_rename(self, parts, line, col, feats, where):
+    def probe_rename(self, parts, line, col, feats, where, external=False):
         params = self.pos_params(parts, line, col)
         params["newName"] = "renamed_by_c17"
         r = self.ask("textDocument/rename", params)
-        self.stats["rename"] += 1
+        self.stats["rename_external" if external else "rename"] += 1
         if r is None:
             self.bad(dict(feats, what="no response"), **where)
             return
@@ -407,15 +408,22 @@ class CaseRun:
         for dc in res.get("documentChanges") or []:
             if "textDocument" in dc:
                 uris.append(dc["textDocument"]["uri"])
+        if external:
+            # a symbol of a build/packages package: rename must answer like prepareRename, with an error and no edits
+            self.bad(dict(feats, what="external symbol renamed"),
+                     got=[os.path.relpath(norm_uri(u), self.root) for u in uris], **where)
+            return
         ext_dirs = [os.path.normpath(os.path.join(self.root, *p["loc"])) + os.sep for p in self.case["pkgs"] if p["external"]]
         hit = [u for u in uris if any((norm_uri(u) + os.sep).startswith(d) or norm_uri(u).startswith(d) for d in ext_dirs)]
         if hit:
             pkg_of = lambda u: next(p["id"] for p in self.case["pkgs"] if p["external"] and
                                     norm_uri(u).startswith(os.path.normpath(os.path.join(self.root, *p["loc"])) + os.sep))
-            self.bad(dict(feats, what="rename of a local symbol edits build/packages",
-                          edited_pkgs_via_path_only=all(self.tree.via_path_only(pkg_of(u)) for u in hit),
-                          edited_pkgs_pinned_via_dotdot=all(self.tree.pinned_via_dotdot(pkg_of(u)) for u in hit)),
-                     got=[os.path.relpath(norm_uri(u), self.root) for u in hit], **where)
+            # one report per edited package (each has its own explanation, if any)
+            for pid in sorted({pkg_of(u) for u in hit}):
+                self.bad(dict(feats, what="rename of a local symbol edits build/packages",
+                              edited_pkgs_via_path_only=self.tree.via_path_only(pid),
+                              edited_pkgs_pinned_via_dotdot=self.tree.pinned_via_dotdot(pid)),
+                         got=[os.path.relpath(norm_uri(u), self.root) for u in hit if pkg_of(u) == pid], **where)
 
     def probes_of_file(self, parts, rnd):
         t = self.tree
@@ -438,8 +446,7 @@ class CaseRun:
                      "target_pkg_pinned_via_dotdot": self.tree.pinned_via_dotdot(f["pkg"])}
             where = {"file": rel(parts), "line": line, "col": c0 + 2}
             self.probe_gate(parts, line, c0 + 2, ext, feats, where)
-            if not ext:
-                self.probe_rename(parts, line, c0 + 2, dict(feats, query="rename"), where)
+            self.probe_rename(parts, line, c0 + 2, dict(feats, query="rename"), where, external=ext)
         for p in t.probes[tuple(parts)]:
             if not p.get("rename") or not p["target"]:
                 continue
@@ -496,6 +503,8 @@ class CaseRun:
                     # a file of the root project, or of a package in its build/packages (the server walks up to the
                     # enclosing project); a nested member or a sibling is a project of its own
                     self.root_known = True
+                if len(done) == len(self.case["order"]):
+                    break      # the last file: its early round would be asked in the very state the final round starts in
                 if tuple(parts) == self.tree.free:
                     self.probe_free("early")
                 self.probes_of_file(parts, "early")
@@ -553,6 +562,7 @@ def features_of_case(case):
                                                   for p in case["pkgs"] for d in p["deps"]),
             # module directories called src / test / build / packages below src/ or test/
             "special_dir": any(set(f["modname"][:-1]) & SPECIAL_SEGMENTS for f in modfiles),
+            "plain_nested_dir": any(len(f["modname"]) > 1 and not set(f["modname"][:-1]) & SPECIAL_SEGMENTS for f in modfiles),
             "dir_named_like_its_source_dir": any(f["modname"][0] in ("src", "test") and len(f["modname"]) > 1 for f in modfiles),
             # `import helpers` next to test/helpers: must stay unresolved / must find the real module helpers
             "tail_import_unresolved": any(tuple(u["name"]) not in modnames and not u["target"] and fpk[tuple(u["from"])]
@@ -598,6 +608,7 @@ def run_cases(out, cases, salt0, workers=min(12, max(4, vlib.NCPU - 4)), keep_di
         for k, v in cr.stats.items():
             agg[k] = agg.get(k, 0) + v
         seen = set()
+        before = len(out.violations)
         for feats, bad in cr.viol:
             # one report per distinct feature vector and configuration
             key = json.dumps(feats, sort_keys=True)
@@ -606,6 +617,9 @@ def run_cases(out, cases, salt0, workers=min(12, max(4, vlib.NCPU - 4)), keep_di
             seen.add(key)
             out.report(feats, {"case": cases[i], "salt": salt0 + i, "bad": bad,
                                "all_bad_of_case": [b for (f2, b) in cr.viol][:12], "tree": os.path.join(base, str(i))})
+        if cr.viol and len(out.violations) == before and not keep_dirs:
+            # every disagreement of this configuration is a known finding: the tree is not needed (--replay rebuilds it)
+            shutil.rmtree(os.path.join(base, str(i)), ignore_errors=True)
     out.cov["distinct_nontrivial"] += nontrivial
     return agg, cover
 
@@ -623,7 +637,7 @@ def gen(out, tier, seed):
     bfs = list(r.cases())
     if len({json.dumps(c, sort_keys=True) for c in bfs}) != len(bfs):
         raise vlib.ToolError("Layout BFS printed a configuration twice (builder not canonical)")
-    want_sim, procs, num = (90, 1, 5) if tier == "quick" else (2600, 4, 30)
+    want_sim, procs, num = (150, 1, 8) if tier == "quick" else (2600, 4, 30)
     sims = []
 
     def sim(k):
@@ -651,7 +665,7 @@ def vacuity(cover, n):
     need = ["npk=4", "npk=1", "registry=True", "path=True", "transitive_chain=True", "cross_package_import=True",
             "equal_names=True", "own_shadows_dep=True", "first_opened=root", "first_opened=registry", "first_opened=path",
             "first_opened=free", "nested_dir=True", "test_dir=True", "unresolved_with_decoy=True",
-            "pinned=True", "nested=True", "twin=True", "twin_shares_module_name=True", "special_dir=True",
+            "pinned=True", "nested=True", "twin=True", "twin_shares_module_name=True", "special_dir=True", "plain_nested_dir=True",
             "dir_named_like_its_source_dir=True", "tail_import_unresolved=True", "tail_is_also_a_module=True",
             "first_opened=pinned", "first_opened=nested"]
     missing = [k for k in need if cover.get(k, 0) == 0]
@@ -664,7 +678,7 @@ def run(out, tier, seed):
     cases = bfs + sims
     agg, cover = run_cases(out, cases, salt0=seed)
     vacuity(cover, len(cases))
-    for k in ("resolved", "unresolved", "cross_pkg", "gate_external", "gate_local", "rename", "free"):
+    for k in ("resolved", "unresolved", "cross_pkg", "gate_external", "gate_local", "rename", "rename_external", "free"):
         if agg.get(k, 0) == 0:
             raise vlib.ToolError(f"no comparison of kind {k} was made")
     out.cov["exhaustive"] = True
